@@ -180,6 +180,45 @@ def datasetIntegrateAsIs (g : Grid) (areas : List K) (a : Arr K) : Outcome K :=
 
 end Impl
 
+/-! ### a process: many grids integrated one after another
+
+  `/repo`'s `integrate` reads nothing but its own array and its own grid, so a process history is
+  just the list of the individual results (`runProcess`).  `runIdCache` is the seeded variant C06e
+  (NOT what /repo does): a process-wide table of face areas keyed by `(id(uxgrid), rule)`, filled
+  on first use and never invalidated — a later grid that lives at the address of a released one
+  gets the dead grid's areas. -/
+
+/-- one `integrate` call of a process: the grid object's address, the quadrature (coded), the grid,
+    its areas for that quadrature, the array -/
+structure Step (K : Type) where
+  addr : Nat
+  rule : Nat
+  g : Grid
+  areas : List K
+  a : Arr K
+
+section Process
+variable {K : Type} [Add K] [Mul K] [OfNat K 0]
+
+/-- what `/repo` does: no state outside the call -/
+def runProcess (steps : List (Step K)) : List (Outcome K) :=
+  steps.map (fun s => integrate s.g s.areas s.a)
+
+/-- one call of the id-keyed cache variant: (new table, result) -/
+def stepIdCache (cache : List ((Nat × Nat) × List K)) (s : Step K) :
+    List ((Nat × Nat) × List K) × Outcome K :=
+  if s.a.dims.getLast? = some Dim.face ∧ s.a.shape.getLast? = some s.g.nFace then
+    match cache.lookup (s.addr, s.rule) with
+    | some ar => (cache, integrate s.g ar s.a)
+    | none => (((s.addr, s.rule), s.areas) :: cache, integrate s.g s.areas s.a)
+  else (cache, integrate s.g s.areas s.a)
+
+def runIdCache (cache : List ((Nat × Nat) × List K)) : List (Step K) → List (Outcome K)
+  | [] => []
+  | s :: ss => (stepIdCache cache s).2 :: runIdCache (stepIdCache cache s).1 ss
+
+end Process
+
 /-! ### specification (decidable; evaluated by the driver on the implementation's output) -/
 
 /-- what is observed of a call: it raised, or it returned an array -/
